@@ -4,7 +4,7 @@ import json, os, re, shutil, subprocess, sys, time, hashlib, random
 
 V = os.path.dirname(os.path.dirname(os.path.dirname(os.path.abspath(__file__))))
 REPO = os.environ.get("VERIF_REPO", "/repo")
-BUILD = os.path.join(V, "build")
+BUILD = os.environ.get("VERIF_BUILD", os.path.join(V, "build"))
 SPECS = os.path.join(V, "specs")
 EVID = os.path.join(V, "evidence")
 NCPU = os.cpu_count() or 4
